@@ -74,6 +74,20 @@ CLAIMS = {
         "note": TRUSTED,
         "technique": "CFG dominance (stop checks before sends), who-may-call/who-may-write tables, configuration plumbing",
     },
+    "C13": {
+        "text": "Inventory analysis of the current source: every place that builds a Hypothesis test or runs a state machine "
+                "is in a closed inventory and is either wrapped in hypothesis.seed(<configured seed>) or runs with "
+                "derandomize=True; every call into random / os.urandom / uuid / secrets / wall-clock inside "
+                "request-shaping modules is in an allow-table (case-id RNG and event ids/timestamps excluded by the "
+                "property, multipart boundary as a named suppression) - a new source is a violation; no loop over a set "
+                "yields/appends in request-shaping code (plus a positive fixture that must match on every run); the "
+                "stateful seed only changes by a constant increment and the CLI seed selection/plumbing is as stated. "
+                "Not decided: process-global caches and multi-worker multiset equality (schedules), determinism of "
+                "third-party libraries.",
+        "design_ref": "DESIGN.md §4 C13",
+        "note": TRUSTED + "; Hypothesis' contract that a seeded / derandomized test draws the same data",
+        "technique": "closed inventory of entropy sources and Hypothesis entry points, def-use of the seed, unordered-iteration lint with positive fixture",
+    },
     "C14": {
         "text": "Must-pass / plumbing / lock-discipline analysis on all paths of the current source: every phase's path from "
                 "case creation to send applies the configured overrides (strategy kwargs for examples/fuzzing, merge "
